@@ -130,6 +130,7 @@ func IndexFromFile(ctx context.Context,
 	// from their bucket before moving on to the next. It's possible that a worker
 	// reaches the end of the stream before the following worker does (eof=true),
 	// don't advance to the next worker in that case.
+	var wErr error
 	for _, w := range worker {
 		for chunk := range w.results {
 			// Assemble the list of chunks in the index
@@ -139,7 +140,8 @@ func IndexFromFile(ctx context.Context,
 		}
 		// Done reading all chunks from this worker, check for any errors
 		if w.err != nil {
-			return index, stats, w.err
+			wErr = w.err
+			break
 		}
 		// Stop if this worker reached the end of the stream (it's not necessarily
 		// the last worker!)
@@ -147,7 +149,17 @@ func IndexFromFile(ctx context.Context,
 			break
 		}
 	}
-	return index, stats, nil
+
+	// Workers past the one that reached the end (or failed) may still be running.
+	// Stop them and wait until they are gone before handing out the result, they
+	// still update the stats and look at each other's state.
+	cancel()
+	for _, w := range worker {
+		w.stop()
+		for range w.results {
+		}
+	}
+	return index, stats, wErr
 }
 
 // Parallel chunk worker - Splits a stream and stores start, size and ID in
